@@ -112,7 +112,15 @@ class Monitor(object):
             ctx.violation('factor:not-finite-positive:%s' % (end or 'inside-table'), case, 'finite positive', repr(f))
             return
         if end:
+            # "use the nearest end of the table": the factor of the end row(s) for the same gender and age
+            rows = self.running[(y, g)]
+            edge = min(r[1] for r in rows) if end == 'below-shortest-row' else max(r[1] for r in rows)
+            vals = [self.row_factor(y, g, age, r[0]) for r in rows if r[1] == edge]
+            vals = [v for v in vals if v is not None]
             ctx.count('judged.factor-off-the-end')
+            if vals and not (min(vals) - 1e-12 <= f <= max(vals) + 1e-12):
+                ctx.violation('factor:off-the-end-not-the-end-row:%s' % end, case, vals, f)
+                return
             ctx.nt(('fe', y, g, age, d_m))
             return
         vals = [self.row_factor(y, g, age, r[0]) for r in S + L]
@@ -160,7 +168,16 @@ class Monitor(object):
         self.mono_case = case
         self.mono.add((y, g), d_m, b)
         if end:
+            rows = self.running[(y, g)]
             ctx.count('judged.best-off-the-end')
+            if end == 'below-shortest-row':
+                lim = min(r[2] for r in rows if r[1] == min(x[1] for x in rows))
+                if b > lim * (1 + 1e-9):
+                    ctx.violation('best:below-shortest-row-slower-than-the-end-row', case, '<= %s' % lim, b)
+            else:
+                lim = max(r[2] for r in rows if r[1] == max(x[1] for x in rows))
+                if b < lim * (1 - 1e-9):
+                    ctx.violation('best:beyond-longest-row-faster-than-the-end-row', case, '>= %s' % lim, b)
             return
         vals = [r[2] for r in S + L]
         lo, hi = min(vals), max(vals)
@@ -226,23 +243,30 @@ def run_shard(ctx, spec):
     a = mon.a
     rnd = random.Random(ctx.seed * 7 + spec['i'])
     ages = [35, 50, 80, 100] if ctx.tier == 'quick' else [20, 35, 50, 65, 80, 95, 100]
-    combos = [(y, g) for y in (2015, 2023) for g in 'mf']
-    part, nparts = spec['i'] // 4, spec['n'] // 4
-    y, g = combos[spec['i'] % 4]
-    ds = distances(mon, y, g, ctx.tier, rnd, part, nparts)
-    for d in ds:
+    # one process serves both genders and both table years, interleaved query by query: the graders are
+    # shared objects, so a lookup cached or left behind by one (gender, year) must not leak into the next
+    combos = [(2023, 'm'), (2023, 'f'), (2015, 'm'), (2015, 'f')]
+    part, nparts = spec['i'], spec['n']
+    ds = set()
+    for (y, g) in combos:
+        ds.update(distances(mon, y, g, ctx.tier, rnd, part, nparts))
+    for d in sorted(ds):
         code = str(d)
-        attach.call(a.wma_world_best, g, code, year=y)
-        for age in (ages if d % 3 == 0 or ctx.tier == 'thorough' or d < 3000 else ages[:1]):
-            attach.call(a.wma_age_factor, g, age, code, year=y)
-    for code in road_codes(ctx.tier, rnd, part, nparts):
-        attach.call(a.wma_world_best, g, code, year=y)
-        for age in ages[:2]:
-            attach.call(a.wma_age_factor, g, age, code, year=y)
-    if part == 0:
-        for age in (5, 10, 15, 20, 25, 30, 60, 90, 105, 110, 120):
-            for code in ('20', '42', '49', '75', '150', '350', '2400', '7000', '11K', '5.3M', '30000', '150001', '250000', '400000', '260K', '249M'):
+        order = combos if d % 2 else combos[::-1]
+        for (y, g) in order:
+            attach.call(a.wma_world_best, g, code, year=y)
+            for age in (ages if d % 3 == 0 or ctx.tier == 'thorough' or d < 3000 else ages[:1]):
                 attach.call(a.wma_age_factor, g, age, code, year=y)
+    for code in road_codes(ctx.tier, rnd, part, nparts):
+        for (y, g) in combos:
+            attach.call(a.wma_world_best, g, code, year=y)
+            for age in ages[:2]:
+                attach.call(a.wma_age_factor, g, age, code, year=y)
+    if part == 0:
+        for age in (5, 10, 15, 20, 25, 30, 40, 58, 60, 70, 85, 90, 105, 110, 120):
+            for code in ('20', '42', '49', '75', '150', '350', '2400', '7000', '11K', '5.3M', '30000', '150001', '250000', '400000', '260K', '249M'):
+                for (y, g) in combos:
+                    attach.call(a.wma_age_factor, g, age, code, year=y)
     ctx.require('judged.factor-envelope', 500)
     ctx.require('judged.best-envelope', 500)
 
